@@ -244,6 +244,9 @@ class Histogram1D(ObjectWithBinning, HistogramBase):
                     raise IndexError(
                         "Cannot index with masked array of a wrong dimension"
                     )
+            elif index.dtype.kind in "iu":
+                # The selected bins are taken in increasing order (bins must stay rising)
+                index = np.unique(np.where(index < 0, index + self.bin_count, index))
         elif isinstance(index, slice):
             keep_missed = self.keep_missed
             # TODO: Fix this
